@@ -16,6 +16,7 @@ pub mod proc;
 pub mod c08;
 pub mod c08b;
 pub mod cycle;
+pub mod cycleb;
 pub mod c11;
 pub mod c10;
 pub mod c16;
@@ -132,10 +133,14 @@ fn check_cycle(which: cycle::Which, seed: u64, tier: &str) -> i32 {
         "behaviour on corrupted or truncated images is not decided (no property states it)".into(),
         "the format-level model ignores code start addresses, which the property does not promise".into(),
     ];
-    let violations = cycle::run_layer_a(which, seed, tier, &mut ev);
+    let mut violations = cycle::run_layer_a(which, seed, tier, &mut ev);
+    need_shim();
+    violations.extend(cycleb::run_layer_b(which.id(), seed, tier, &mut ev));
     ev.extra.insert("components".into(), serde_json::json!({
         "real": ["fml parser", "fml compiler", "Program::serialize", "Program::from_bytes", "Program::from (direct construction)", "per-opcode VM via step_with", "std BufWriter/LineWriter/BufReader", "FML NamedSink"],
-        "stub": ["SimFd / SimSource (simulated disk endpoints under explicit fault plans)", "foreign encoder/decoder (the other party)"],
+        "real_layer_b": ["the unmodified fml CLI (compile, run, execute, disassemble) as child processes, debug and release"],
+        "stub": ["SimFd / SimSource (simulated disk endpoints under explicit fault plans)", "foreign encoder/decoder (the other party)",
+                 "libfmlsim.so: read() outcomes on the image fd / stdin of the loading process"],
     }));
     report::finish(ev, violations)
 }
@@ -244,6 +249,7 @@ fn cmd_replay(args: &[String]) -> i32 {
     let result = match engine {
         c08::ENGINE_A => c08::replay(&replay),
         cycle::ENGINE => cycle::replay(&replay),
+        cycleb::ENGINE => { need_shim(); cycleb::replay(&replay) }
         c11::ENGINE => { need_shim(); c11::replay(&replay) }
         c10::ENGINE => { need_shim(); c10::replay(&replay) }
         c06::ENGINE => { need_shim(); c06::replay(&replay) }
